@@ -7,7 +7,8 @@ import Sop.Driver.Util
     add k tok len [ev a:k]             -> 1 | 0      (the `ev` part is what the B-tree handed the tracker)
     upd k tok len [ev u:k]             -> 1 | 0
     ups k tok len [ev a:k | ev u:k]    -> 1 | 0
-    rm k [ev r:s]                      -> 1 | 0      (s = key of the item handed to tracker.Remove)
+    rm k [ev r:s]                      -> 1 | 0      (s = key of the item handed to tracker.Remove; s = k since
+                                                      /repo a8e6b837, anything else is annotated as a deviation)
     commit | rollback                  -> ok
     dump                               -> count=<n> k=tok:len … (k=! unreadable)
     disk                               -> k:i=tok:len | k:b=tok:len | k:b=missing | k:n … vblobs=<n>
@@ -81,7 +82,10 @@ def step (s : St) (ws : List String) : St × String :=
         | _ => none
       if op == "rm" then
         match hasEv evs "r" with
-        | some via => (s.apply (.remove k via), deviates "C19/op-result-deviates-from-map" (!present) "1")
+        | some via =>
+          -- since /repo a8e6b837 the item handed to `tracker.Remove` is the item removed; the model does not use `via`
+          if via != k && !s.legacyRemove then (s.apply (.remove k via), deviates "C19/remove-hands-other-item-to-tracker" true "1")
+          else (s.apply (.remove k via), deviates "C19/op-result-deviates-from-map" (!present) "1")
         | none => (s, deviates "C19/remove-false-on-existing-key" present "0")
       else match val with
         | none => (s, "bad-op")
